@@ -74,8 +74,8 @@ def run(ctx):
                   ("Golay(23,12)/ML", lambda: E.GolayCodeEncoder(), [("BruteForceMLDecoder", lambda e: D.BruteForceMLDecoder(e), "hard", False)])]
     modems = [("BPSK", lambda: (M.BPSKModulator(), M.BPSKDemodulator()), 1), ("QPSK", lambda: (M.QPSKModulator(), M.QPSKDemodulator()), 2)]
     modems.append(("Identity", lambda: (M.IdentityModulator(), M.IdentityDemodulator()), 1))
-    for o in (4, 8, 16):
-        for g in (True, False):
+    for o in (4, 8, 16, 32, 64):
+        for g in ((True, False) if o <= 16 else (True,)):
             modems.append(("PSK%d-%s" % (o, "gray" if g else "binary"), (lambda o=o, g=g: (M.PSKModulator(o, gray_coding=g), M.PSKDemodulator(o, gray_coding=g))), o.bit_length() - 1))
     for o in (16, 64):
         for g in (True, False):
